@@ -35,7 +35,6 @@ class Req:
         self.body = body
         self.close = close
         self.chunks = [path.encode() * 3] if chunks is None else list(chunks)
-        assert not (expect and not body), "expecting requests without a body are C19's class (F5)"
 
     def head(self):
         if self.body or self.expect:
@@ -97,7 +96,7 @@ class Scenario:
         out = []
         pos = 0
         for r in self.reqs:
-            if r.expect:
+            if r.expect and r.body:
                 out.append(pos + len(r.head()))
                 out.append(pos + len(r.bytes()))
             else:
@@ -211,14 +210,18 @@ def response_alone(req):
 def check_wire(scn, wire):
     """-> (ok, n_complete, n_interim, why).  The wire must be the concatenation
     of the responses of a prefix of the pipeline, in order, the last one
-    possibly cut short, with whole interim responses only at response
-    boundaries (at most one per expecting request, never after its response)."""
+    possibly cut short; an interim `100 Continue` may appear only whole, at
+    most once, and only directly before the response of the expecting request
+    it belongs to (after every earlier response)."""
     exp = [response_alone(r) for r in scn.reqs]
     pos = 0
     ncont = 0
     done = 0
     for i, e in enumerate(exp):
-        while wire[pos:pos + len(CONT)] == CONT:
+        if wire[pos:pos + len(CONT)] == CONT:
+            if not scn.reqs[i].expect:
+                return False, done, ncont, "interim response before the response to request %d (%s), which does not expect one" % (
+                    i, scn.reqs[i].path)
             pos += len(CONT)
             ncont += 1
         rest = wire[pos:]
@@ -228,19 +231,13 @@ def check_wire(scn, wire):
             if scn.reqs[i].close:
                 break
             continue
-        if e.startswith(rest) or CONT.startswith(rest):
+        if e.startswith(rest) or (scn.reqs[i].expect and ncont == 0 and CONT.startswith(rest)):
             return True, done, ncont, "partial"
         return False, done, ncont, "after %d whole responses the wire continues with %r, expected %r" % (
             done, rest[:60], e[:60])
-    while wire[pos:pos + len(CONT)] == CONT:
-        pos += len(CONT)
-        ncont += 1
     rest = wire[pos:]
-    if rest and not CONT.startswith(rest):
+    if rest:
         return False, done, ncont, "%d bytes after the last expected response: %r" % (len(rest), rest[:60])
-    nexp = sum(1 for r in scn.reqs if r.expect)
-    if ncont > nexp:
-        return False, done, ncont, "%d interim responses for %d expecting requests" % (ncont, nexp)
     return True, done, ncont, "complete"
 
 
@@ -324,7 +321,8 @@ def model_script(scn, world):
             alone = response_alone(r)
             body = sum(len(c) for c in r.chunks)
             ws = [len(alone) - body] + [len(c) for c in r.chunks if c]
-        out.append("%d%d:%s" % (1 if r.expect else 0, 1 if r.close else 0, ".".join(map(str, ws)) if ws else "-"))
+        out.append("%d%d%d:%s" % (1 if r.expect else 0, 1 if r.close else 0, 1 if (r.expect and not r.body) else 0,
+                                  ".".join(map(str, ws)) if ws else "-"))
     return "/".join(out) if out else "-"
 
 
@@ -449,7 +447,7 @@ def validate(world, runner):
     toks = trace_tokens(world)
     scn = world.scn
     if not toks:
-        return 0, None, {"allok": True, "wire_ok": True}
+        return 0, None, {"allok": True, "wire_ok": True, "rest_ok": True}
     line = "val %s %s %s" % (model_params(scn), model_script(scn, world), " ".join(t for _, t, _, _ in toks))
     ans = runner.query([line])[0]
     fields = ans.split("|")
@@ -457,6 +455,7 @@ def validate(world, runner):
         return 0, {"why": "runner answered %d fields for %d tokens: %s" % (len(fields), len(toks), ans[:200])}, {}
     allok = True
     wire_ok = True
+    rest_ok = True
     io_blocking_ob = False
     pcs = set()
     states = set()
@@ -481,7 +480,7 @@ def validate(world, runner):
             m = {
                 "rq": 0 if kv["rq"] == "-" else len(kv["rq"].split(".")),
                 "tot": int(kv["tot"]),
-                "obs": [int(x) for x in kv["obs"].split(".")],
+                "obs": [int(x) for x in kv["obs"].split(".") if x],
                 "conn": kv["conn"] == "1", "wc": kv["wc"] == "1", "cwf": kv["cwf"] == "1",
                 "q": int(kv["q"]),
                 "rl": _owner_name(kv["rl"]), "ol": _owner_name(kv["ol"]), "dl": _owner_name(kv["dl"]),
@@ -499,8 +498,10 @@ def validate(world, runner):
             wire_ok = False
         if ok != "11111":
             allok = False
+        if ok[1:] != "1111":
+            rest_ok = False
     return len(toks), None, {"allok": allok, "wire_ok": wire_ok, "last": kv["ok"], "wsc": kv["wsc"] == "1",
-                             "pcs": pcs, "states": states}
+                             "rest_ok": rest_ok, "pcs": pcs, "states": states}
 
 
 # ----------------------------------------------------------------------------
@@ -728,3 +729,126 @@ class _DSig(_Sig):
 
 def sig_hash(sigs):
     return {k: hashlib.sha1(v.encode()).hexdigest()[:12] for k, v in sigs.items()}
+
+
+# ----------------------------------------------------------------------------
+# scenario generator (all randomness from the rng handed in)
+
+
+def gen_scenario(rng, max_reqs=4):
+    n = rng.randint(1, max_reqs)
+    reqs = []
+    for i in range(n):
+        path = "/" + "abcdefgh"[i]
+        k = rng.random()
+        chunks = [path.encode() * rng.randint(1, 12) for _ in range(rng.randint(0, 3))]
+        if k < 0.3:
+            body = b"x" * rng.randint(1, 9) if rng.random() < 0.85 else b""
+            reqs.append(Req(path, expect=True, body=body, chunks=chunks, close=rng.random() < 0.1))
+        elif k < 0.42:
+            reqs.append(Req(path, body=b"y" * rng.randint(1, 9), chunks=chunks, close=rng.random() < 0.1))
+        else:
+            reqs.append(Req(path, chunks=chunks, close=rng.random() < 0.12))
+    scn0 = Scenario(reqs)
+    total = len(scn0.stream())
+    bounds = scn0.item_bounds()
+    cuts = []
+    pos = 0
+    for r in reqs:
+        if r.expect and r.body and rng.random() < 0.7:
+            cuts.append(pos + len(r.head()))        # the body travels separately from the head
+        pos += len(r.bytes())
+    for _ in range(rng.randint(0, 2)):
+        cuts.append(rng.choice(bounds) if rng.random() < 0.6 else rng.randint(1, max(1, total - 1)))
+    plan = [rng.choice([0, 1, 5, 30, 100, 1 << 20]) for _ in range(rng.randint(0, 6))]
+    return Scenario(reqs, cuts=cuts, send_plan=plan, lookahead=rng.choice([0, 0, 1, 2]), n_workers=rng.choice([1, 2, 3]),
+                    send_bytes=rng.choice([1, 1, 1, 50, 18000]), sndbuf=rng.choice([1 << 16, 64, 200]),
+                    eof=rng.random() < 0.15)
+
+
+def scenario_dist(scns):
+    d = {"requests": {}, "expecting": 0, "late_expecting": 0, "close": 0, "lookahead": {}, "workers": {}, "eof": 0,
+         "partial_send_plans": 0}
+    for s in scns:
+        d["requests"][len(s.reqs)] = d["requests"].get(len(s.reqs), 0) + 1
+        d["expecting"] += any(r.expect for r in s.reqs)
+        d["late_expecting"] += s.has_late_expect()
+        d["close"] += any(r.close for r in s.reqs)
+        d["lookahead"][s.lookahead] = d["lookahead"].get(s.lookahead, 0) + 1
+        d["workers"][s.n_workers] = d["workers"].get(s.n_workers, 0) + 1
+        d["eof"] += s.eof
+        d["partial_send_plans"] += any(p < (1 << 20) for p in s.send_plan)
+    return d
+
+
+# ----------------------------------------------------------------------------
+# The shape the model was written against (shape_signature / dispatcher_signature of the
+# pinned tree).  Which model steps stand for which part is listed in the header of
+# coq/Model/ChanPipe.v.  Any edit that adds or removes an access of a shared attribute, moves a
+# statement across a `with` boundary, changes a flag test or a call among the audited ones
+# changes these strings.
+
+EXPECTED_SHAPE = {'_flush_exception': 'if( flush ){ try{ do_close=do_close flush() False return } except(OSError){ if( ){ } '
+                     'True W:will_close False True return } except(Exception){ True W:will_close False True '
+                     'return } } False False return',
+ '_flush_outbufs_below_high_watermark': 'if( R:total_outbufs_len Gt .outbuf_high_watermark ){ '
+                                        'with(outbuf_lock){ do_close=False _flush_exception() if( ){ '
+                                        'pull_trigger() wait() return } while( and( R:connected , '
+                                        'R:total_outbufs_len Gt .outbuf_high_watermark , ) ){ pull_trigger() '
+                                        'wait() } } }',
+ '_flush_some': '0 False while( True ){ R:outbufs 0 while( Gt 0 ){ get() do_close=do_close send() if( ){ '
+                'True skip() R:total_outbufs_len W:total_outbufs_len } else{ True break } } else{ if( '
+                'R:outbufs len() Gt 1 ){ 0 R:outbufs pop() try{ close() } except(Exception){ } } else{ True '
+                '} } if( ){ break } } if( ){ W:last_activity True return } False return',
+ '_flush_some_if_lockable': 'if( False acquire() ){ try{ do_close=do_close _flush_some() if( '
+                            'R:total_outbufs_len Lt .outbuf_high_watermark ){ notify() } } finally{ '
+                            'release() } }',
+ 'handle_close': 'with(outbuf_lock){ for( R:outbufs ){ try{ close() } except(Exception){ } } 0 '
+                 'W:total_outbufs_len False W:connected notify() } close()',
+ 'handle_read': 'try{ recv() } except(OSError){ if( ){ } handle_close() return } if( ){ W:last_activity '
+                'received() } else{ False W:connected }',
+ 'handle_write': 'if( not R:requests ){ } else{ if( R:total_outbufs_len GtE .send_bytes ){ } else{ None } } '
+                 'flush _flush_exception() if( and( R:close_when_flushed , not R:total_outbufs_len , ) ){ '
+                 'False W:close_when_flushed True W:will_close } if( R:will_close ){ handle_close() }',
+ 'readable': 'not or( R:will_close , R:close_when_flushed , R:requests len() Gt .channel_request_lookahead , '
+             'R:total_outbufs_len , ) return',
+ 'received': 'if( not ){ False return } with(requests_lock){ if( or( R:will_close , R:close_when_flushed , ) '
+             '){ False return } while( ){ if( R:request Is None ){ W:request } R:request received() if( and( '
+             'R:request .expect_continue , R:request .headers_finished , not R:requests , not '
+             'R:sent_continue , ) ){ send_continue() } if( R:request .completed ){ False W:sent_continue if( '
+             'not R:request .empty ){ R:request R:requests append() if( R:requests len() Eq 1 ){ add_task() '
+             '} } None W:request } if( GtE len() ){ break } } } True return',
+ 'send_continue': 'False R:request .expect_continue= len() with(outbuf_lock){ R:outbufs 1 append() '
+                  'R:current_outbuf_count W:current_outbuf_count R:total_outbufs_len W:total_outbufs_len '
+                  'True W:sent_continue _flush_some() }',
+ 'service': 'R:requests 0 if( .error ){ } else{ } try{ if( R:connected ){ service() } else{ True '
+            '.close_on_finish= } } except(ClientDisconnected){ True .close_on_finish= } except(Exception){ '
+            'if( not ){ if( ){ } else{ } .error= .version= try{ } except(KeyError){ } try{ service() } '
+            'except(ClientDisconnected){ True .close_on_finish= } } else{ True .close_on_finish= } } if( '
+            '.close_on_finish ){ with(requests_lock){ True W:close_when_flushed for( R:requests ){ close() } '
+            'W:requests } } else{ if( R:requests len() Gt 1 ){ _flush_outbufs_below_high_watermark() } if( '
+            'R:current_outbuf_count Gt 0 ){ .outbuf_high_watermark W:current_outbuf_count } close() '
+            'with(requests_lock){ 0 R:requests pop() if( and( R:connected , R:requests , ) ){ add_task() } '
+            'else{ if( and( R:connected , R:request IsNot None , R:request .expect_continue , R:request '
+            '.headers_finished , not R:sent_continue , ) ){ send_continue() } } } } if( R:connected ){ '
+            'pull_trigger() } W:last_activity',
+ 'writable': 'or( R:total_outbufs_len Gt 0 , R:will_close , R:close_when_flushed , ) return',
+ 'write_soon': 'if( not R:connected ){ raise(ClientDisconnected) } if( ){ with(outbuf_lock){ '
+               '_flush_outbufs_below_high_watermark() if( not R:connected ){ raise(ClientDisconnected) } '
+               'len() if( ){ R:outbufs append() R:outbufs append() 0 W:current_outbuf_count } else{ if( '
+               'R:current_outbuf_count GtE .outbuf_high_watermark ){ R:outbufs append() 0 '
+               'W:current_outbuf_count } R:outbufs 1 append() R:current_outbuf_count W:current_outbuf_count '
+               '} R:total_outbufs_len W:total_outbufs_len if( R:total_outbufs_len GtE .send_bytes ){ '
+               'do_close=False _flush_exception() if( or( , not , R:total_outbufs_len GtE .send_bytes , ) ){ '
+               'pull_trigger() } } } return } 0 return'}
+
+EXPECTED_DISPATCHER_SHAPE = {'add_task': 'with(lock){ R:queue append() R:queue_cv notify() R:queue R:stop_count if( Gt ){ } }',
+ 'handler_thread': 'while( True ){ with(lock){ while( and( not R:queue , R:stop_count Eq 0 , ) ){ 1 '
+                   'R:queue_cv wait() 1 } if( R:stop_count Gt 0 ){ 1 1 discard() notify() break } R:queue '
+                   'popleft() } try{ service() } except(BaseException){ } }'}
+
+
+# A schedule (found by seeded random search, RandomPolicy(Random(0), stay=0.9)) under which the scenario
+# checks.C04.f18_scenario() shows finding F18 on the unchanged tree: the worker's send_continue() and the
+# I/O thread's unlocked _flush_some send the same 151 bytes.
+F18_CHOICES = [0, 0, 0, 0, 2, 2, 1, 1, 1, 0, 0, 0, 0, 0, 0, 0, 0, 0, 0, 0, 0, 0, 0, 0, 0, 0, 0, 0, 0, 0, 0, 0, 0, 0, 0, 0, 0, 1, 0, 0, 1, 1, 1, 1, 1, 1, 1, 1, 1, 1, 1, 1, 1, 1, 0, 0, 0, 0, 0, 0, 0, 0, 0, 0, 0, 0, 0, 0, 0, 0, 0, 0, 0, 0, 0, 0, 0, 0, 1, 1, 1, 1, 1, 1, 1, 1, 1, 1, 1, 1, 1, 1, 1, 1, 1, 1, 0, 0, 0, 0, 0, 0, 0, 0, 0, 0, 0, 0, 0, 0, 0, 0, 0, 0, 0, 0, 0, 0, 0, 0, 0, 0, 0, 0, 1, 1, 0, 0, 0, 0, 0, 0, 0, 0, 0, 0, 0, 0, 1, 1, 1, 1, 1, 1, 1, 1, 1, 1, 1, 1, 0, 0, 0, 0, 0, 0]
